@@ -79,6 +79,25 @@ theorem dropped_dma_sound_partial (c : Ctx) (r : Refine) (hsz : Sizes c) (hcb : 
   rw [eventsFinal_eq_eventsAt hpa hst cmds {} sf acts none hrun (fun _ h => h) (fun _ h => h) (fun _ _ h => nomatch h) horig]
   exact optimised_refines_original_at_decision c r hsz hcb hpa cmds horig
 
+/-- **dropped_dma_sound_single_dma.** A syntactic case in which nothing can be reassigned: no tensor object and no pass
+    occurs in two table DMAs of the stream (one horizontal stripe per operation with a table, one clone of the table per
+    operation). Then the stream the later stages see is fine — no hypothesis on the run left. -/
+theorem dropped_dma_sound_single_dma (c : Ctx) (r : Refine) (hsz : Sizes c) (hcb : EqualValuesEqualBytes c r) (hpa : PassesAgree c r)
+    (cmds : List Cmd) (horig : OrigOk c r none cmds) (ht : (dmaTids cmds).Nodup) (hp : (dmaPids cmds).Nodup) :
+    ∃ acts sf, optimize c cmds = .ok (acts, sf) ∧ StreamOk (geomOf c) Window.empty (eventsFinal c r sf.env cmds acts) := by
+  obtain ⟨⟨acts, sf⟩, hrun⟩ := optimize_total c hsz cmds
+  exact ⟨acts, sf, hrun, dropped_dma_sound_partial c r hsz hcb hpa cmds acts sf horig hrun (stable_of_nodup hrun ht hp)⟩
+
+/-- the list checker applied to the real `put` results (`lutdisj`) accepts only lists in which no two tables share a byte -/
+theorem tables_checker_sound (l : List (Nat × Nat × Nat)) (h : tablesOverlap l = none) :
+    l.Pairwise fun a b => ∀ x, ¬ ((a.2.1 ≤ x ∧ x < a.2.1 + a.2.2) ∧ (b.2.1 ≤ x ∧ x < b.2.1 + b.2.2)) :=
+  tablesOverlap_none l h
+
+/-- the stream checker applied to the real streams (`lutspec`) decides the Spec -/
+theorem stream_checker_sound (g : Geom) (evs : List Ev) : problems g evs = [] ↔ StreamOk g Window.empty evs := by
+  rw [← streamOkB_iff]
+  exact problems_nil_iff g evs
+
 /-! ### the two ways the full statement fails on the unchanged code -/
 
 /-- witness 1: `np.array_equal` on the values does not see the element width. Tensor 0: 256 bytes, tensor 1: 1024 bytes,
